@@ -1,19 +1,19 @@
 #!/bin/sh
-# evaluates every /tmp/mut/Cxx/_out/mutantN.diff not yet evaluated against its own property's check
-mkdir -p /tmp/mut/results
-for d in /tmp/mut/C*/_out; do
+# evaluates every ${MUT_BASE:-/tmp/mut}/Cxx/_out/mutantN.diff not yet evaluated against its own property's check
+mkdir -p ${MUT_BASE:-/tmp/mut}/results
+for d in ${MUT_BASE:-/tmp/mut}/C*/_out; do
   id=$(basename $(dirname $d))
   for n in 1 2 3; do
     [ -f $d/mutant$n.diff ] || continue
     [ -f $d/notes$n.md ] || continue
-    out=/tmp/mut/results/$id-$n.json
+    out=${MUT_BASE:-/tmp/mut}/results/$id-$n.json
     [ -s $out ] && continue
     /verif/tools/try_mutant.py $d/mutant$n.diff --demo $d/demo$n.py --checks $id > $out 2>&1
   done
 done
 /venv/bin/python - <<'P'
 import json,glob
-for f in sorted(glob.glob('/tmp/mut/results/*.json')):
+for f in sorted(glob.glob(__import__('os').environ.get('MUT_BASE','/tmp/mut')+'/results/*.json')):
     try: r=json.load(open(f))
     except Exception as e: print(f.split('/')[-1],'UNPARSABLE'); continue
     c=r.get('checks',{})
